@@ -16,10 +16,15 @@ import z3
 from pyvc.values import *
 from pyvc.state import Raised
 
-StrArr = z3.ArraySort(Str, Str)
-BoolArr = z3.ArraySort(Str, Bool)
-JOIN = z3.Function('path_join', Str, Str, Str)
-DIRNAME = z3.Function('path_dirname', Str, Str)
+# File keys and paths are values of uninterpreted sorts: only equality matters for them (no string theory in the
+# quantified invariants; z3 decides the array/uninterpreted-sort fragment and finds counter-models in it).
+FKey = z3.DeclareSort('FKey')
+Path = z3.DeclareSort('Path')
+VU.PYCLASS.update({'FKey': 'str', 'Path': 'str'})
+StrArr = z3.ArraySort(Path, Str)
+BoolArr = z3.ArraySort(Path, Bool)
+JOIN = z3.Function('path_join', Str, FKey, Path)
+DIRNAME = z3.Function('path_dirname', Path, Path)
 CELLS = ('os', 'os_ex', 'disk', 'disk_ex')
 
 
@@ -51,18 +56,21 @@ def path_axioms():
 
 
 def m_join(eng, st, args, kwargs, node):
-    if len(args) != 2 or not all(isinstance(a, VStr) for a in args):
-        return [(st, VStr(z3.Const(fresh_name('joined'), Str)))]
-    return [(st, VStr(JOIN(args[0].t, args[1].t)))]
+    if len(args) != 2 or not (isinstance(args[0], VStr) and isinstance(args[1], VU) and args[1].t.sort() == FKey):
+        raise Refuse("os.path.join of something other than (root string, file key)")
+    return [(st, VU(JOIN(args[0].t, args[1].t)))]
 
 
 def m_dirname(eng, st, args, kwargs, node):
-    return [(st, VStr(DIRNAME(args[0].t)))]
+    return [(st, VU(DIRNAME(args[0].t)))]
 
 
 def m_makedirs(eng, st, args, kwargs, node):
-    # creates directory entries only; may fail (e.g. a component is a file)
+    # creates directory entries only; fails only when the directory cannot exist (a component is a file), in which case
+    # no file lives directly in it
     s2 = st.fork()
+    q = z3.Const('q!mk', Path)
+    s2.assume(z3.ForAll([q], z3.Implies(DIRNAME(q) == args[0].t, z3.Not(z3.Select(s2.ghost['os_ex'].t, q))), patterns=[DIRNAME(q)]))
     st.ghost['dirs'] = VArr(z3.Const(fresh_name('dirs'), BoolArr))
     st.assume(z3.Select(st.ghost['dirs'].t, args[0].t))
     st.ghost['fs_ops'] = st.ghost['fs_ops'] + 1
@@ -77,10 +85,21 @@ def m_open(eng, st, args, kwargs, node):
     mode = mode.t.as_string()
     outs = []
     s_err = st.fork()
-    outs.append(eng.exc(s_err, 'OSError', node))           # any open may fail (permissions, is-a-directory, ...)
+    # open fails exactly when the path is a directory (wb) / is not a readable file (rb); spurious IO errors are outside the model
+    if mode == 'wb':
+        s_err.assume(z3.Select(st.ghost['dirs'].t, path.t))
+        s_err.assume(z3.Not(z3.Select(st.ghost['os_ex'].t, path.t)))      # a path is not both a directory and a file
+        outs.append(eng.exc(s_err, 'IsADirectoryError', node))
+    else:
+        s_err.assume(z3.Not(z3.Select(st.ghost['os_ex'].t, path.t)))
+        s_err2 = s_err.fork()
+        s_err.assume(z3.Select(st.ghost['dirs'].t, path.t))
+        outs.append(eng.exc(s_err, 'IsADirectoryError', node))
+        s_err2.assume(z3.Not(z3.Select(st.ghost['dirs'].t, path.t)))
+        outs.append(eng.exc(s_err2, 'FileNotFoundError', node))
     if mode == 'wb':
         isdir = z3.Select(st.ghost['dirs'].t, path.t)
-        st.assume(z3.Not(isdir))                            # opening a directory for writing fails (the OSError outcome)
+        st.assume(z3.Not(isdir))                            # opening a directory for writing fails (the IsADirectoryError outcome)
         st.ghost['os'] = st.ghost['os'].store(path, "")
         st.ghost['os_ex'] = st.ghost['os_ex'].store(path, True)
         st.ghost['fs_ops'] = st.ghost['fs_ops'] + 1
@@ -116,8 +135,7 @@ def file_method(eng, o, m, args, kwargs, st, node):
         st.setfield(o, '__flushed', n)
         _sync_os_cell(st, o)
         st.ghost['fs_ops'] = st.ghost['fs_ops'] + 1
-        s2 = st.fork()
-        return [(st, len_(data)), eng.exc(s2, 'OSError', node)]
+        return [(st, len_(data))]
     if m == 'flush':
         st.setfield(o, '__flushed', len_(st.field(o, '__written')))
         _sync_os_cell(st, o)
@@ -149,8 +167,7 @@ def m_fsync(eng, st, args, kwargs, node):
     st.ghost['disk'] = st.ghost['disk'].store(p, st.ghost['os'][p])
     st.ghost['disk_ex'] = st.ghost['disk_ex'].store(p, st.ghost['os_ex'][p])
     st.ghost['fs_ops'] = st.ghost['fs_ops'] + 1
-    s2 = st.fork()
-    return [(st, NONE), eng.exc(s2, 'OSError', node)]
+    return [(st, NONE)]
 
 
 def with_file():
@@ -171,8 +188,7 @@ def m_getsize(eng, st, args, kwargs, node):
     p = args[0]
     n = VInt(z3.If(z3.Select(st.ghost['os_ex'].t, p.t), z3.Length(z3.Select(st.ghost['os'].t, p.t)), z3.Const(fresh_name('dirsize'), Int)))
     st.assume(n >= 0)
-    s2 = st.fork()
-    return [(st, n), eng.exc(s2, 'OSError', node)]
+    return [(st, n)]         # called right after os.path.exists in the code under contract; no concurrent deletion (single client)
 
 
 def externals():
